@@ -990,8 +990,18 @@ func callBuiltin(caller *frame, fn *ssa.Builtin, args []value) value {
 			}
 			return arg0
 		}
-		// append([]T, ...[]T) []T  (aggregate elements are copied, not aliased)
-		return append(args[0].([]value), cloneElems(args[1].([]value))...)
+		// append([]T, ...[]T) []T  (aggregate elements are copied, not aliased; when the append
+		// reallocates, Go copies the existing elements by value too, so the old and the new
+		// backing arrays must not share struct/array elements)
+		a0, a1 := args[0].([]value), cloneElems(args[1].([]value))
+		r := append(a0, a1...)
+		if len(a0)+len(a1) > cap(a0) {
+			// reallocated (with the host's growth policy): un-share the copied elements
+			for i := range a0 {
+				r[i] = cloneVal(a0[i])
+			}
+		}
+		return r
 
 	case "copy": // copy([]T, []T) int or copy([]byte, string) int
 		src := args[1]
